@@ -3,7 +3,7 @@ T_ASSUME = 'Trusted: pyvc encoder (tested by canaries/mutants/differential runs)
 
 claim('C01', 'other', 'contract-based deductive verification: VCs generated from the real source by symbolic execution (pyvc), discharged by z3/cvc5; fold induction for n-ary operators',
       'Unbounded proof that every operator, every GateType constant and every foreign gate table (synthesis codes, arithmetic codes) denotes the one fixed OP(t) for all Boolean arguments and all arities; '
-      'the evaluation entry points are additionally exercised by a bounded stand-in against an independent evaluator. Not `proof` because the entry-point loops are bounded-only in this build.',
+      'bench conversion and pattern simulation likewise; evaluate_full_circuit AND the stack-based evaluate_circuit are proved to return den for every gate / requested output of every well-formed circuit (loop invariants; top_sort by its contract, proved under C20). The thin wrappers (evaluate, evaluate_at, truth tables) are exercised by the bounded stand-in, so the claim is not `proof`.',
       T_ASSUME + 'Bounded part: circuits with <=2 gates exhaustive, seeded random up to 7 gates.', 'DESIGN.md §6 C01')
 claim('C05', 'other', 'contract-based deductive verification of the Tseytin templates (loop invariants over a CNF view), dispatch proved on one-gate circuits; bounded brute force for whole circuits',
       'Every _process_* template is proved equivalent to top = OP(t)(lits) for all literals (and/nand/or/nor for every arity by loop invariant, xor/nxor for arities 2..5); '
@@ -83,7 +83,7 @@ claim('C08', 'other', 'contract-based deductive verification on an abstract host
       T_ASSUME + 'operand labels are not the generators\' sentinel strings; uuid4 draws pairwise distinct.', 'DESIGN.md §6 C07/C08/C09')
 claim('C16', 'other', 'contract-based deductive verification of the bit-level primitives (single-step contracts over a byte-array model) and of the code tables; bounded stand-in for streams, records and circuits',
       'Proved for all byte contents and positions: BitWriter.write appends exactly the given bit and keeps the writer invariant; BitReader.read returns the bit at the position, advances by one and raises BitIOError exactly at the end; '
-      'write_number accepts exactly 0 <= n < 2^k (k<=9) and emits the little-endian bits; gate-type codes are injective/inverse and _get_arity is the table the format defines. Round trips of numbers, dictionaries and circuits are bounded-only.',
+      'write_number(n, k), k in {0,1,2,3,7,8,9,12}, on an arbitrary writer state accepts exactly 0 <= n < 2^k and appends the k little-endian bits (stated on the bytes, not on the way they are produced); gate-type codes are injective/inverse and _get_arity is the table the format defines. Round trips of numbers, dictionaries and circuits are bounded-only.',
       T_ASSUME + 'background lemma on disjoint-bit OR (side condition proved).', 'DESIGN.md §6 C16')
 
 for _k in ('C10', 'C12'):
